@@ -802,6 +802,11 @@ func hdrStat(o *Out, rng *rand.Rand, thorough bool, _ []string) {
 					default:
 						ei = 1 + rng.Int63n(v+2)
 					}
+					if rng.Intn(5) == 0 {
+						// a value beyond the counts array (refused) whose back-filled samples would be recordable
+						v = 4*mx + rng.Int63n(mx+1)
+						ei = v/int64(2+rng.Intn(5)) + 1
+					}
 					if ei > 0 && v/ei > 400 {
 						ei = v/400 + 1
 					}
